@@ -7,7 +7,7 @@ use refimpl as r;
 
 fn budget(t: Tier) -> u64 {
     match t {
-        Tier::Quick => 2000,
+        Tier::Quick => 8_000,
         Tier::Thorough => 120_000,
     }
 }
